@@ -206,6 +206,9 @@ pub fn check(tier: &str) -> i32 {
         if part.probes.get("cmd.restored_some") > 0 {
             part.distinct.insert(simcore::fsutil::hash_u64(format!("{:?}{:?}", sc.project, sc.steps).as_bytes()));
         }
+        if std::env::var("C04_SIMLOG").is_ok() {
+            eprintln!("SIMLOG {i} sim_ms={} cmds={}", part.sim_ms, part.cmds);
+        }
         if i < 3 {
             part.samples.push(json!({"files": sc.project.files.keys().collect::<Vec<_>>(), "toml": sc.project.toml, "steps": sc.steps.iter().map(step_brief).collect::<Vec<_>>()}));
         }
